@@ -90,80 +90,122 @@ def run(ctx):
                     raise
                 res.violations.append({"clause": "best_match raised", "engine": eng, "q": q, "s": s,
                                        "got": impl.exc_name(ex) + ":" + str(ex)[:80]})
-            # k-best iterator, repeated and interleaved
-            kk = rng.choice([1, 2, 3, None])
-            overlap = rng.choice([0, 0, 1, 2])
-            minlength = rng.choice([1, 2, 2, 3])
-            maxlength = rng.choice([None, None, lq + 1, 2 * lq])
-            try:
-                it1 = sa.kbest_matches(k=kk, overlap=overlap, minlength=minlength, maxlength=maxlength)
-                it2 = sa.kbest_matches(k=kk, overlap=overlap, minlength=minlength, maxlength=maxlength)
-                l1, l2 = [], []
-                alive1 = alive2 = True
-                while alive1 or alive2:     # interleave the two iterators over the same alignment object
-                    if alive1:
-                        try:
-                            l1.append(next(it1))
-                        except StopIteration:
-                            alive1 = False
-                    if alive2:
-                        try:
-                            l2.append(next(it2))
-                        except StopIteration:
-                            alive2 = False
-                d1 = [(m.idx, tuple(m.segment), float(m.value)) for m in l1]
-                d2 = [(m.idx, tuple(m.segment), float(m.value)) for m in l2]
-            except BaseException as ex:
-                if isinstance(ex, (KeyboardInterrupt, SystemExit)):
-                    raise
-                res.violations.append({"clause": "kbest_matches raised", "engine": eng, "q": q, "s": s,
-                                       "got": impl.exc_name(ex) + ":" + str(ex)[:80]})
-                continue
-            info = {"engine": eng, "q": q, "s": s, "penalty": pen, "k": kk, "overlap": overlap,
-                    "minlength": minlength, "maxlength": maxlength, "matches": d1}
-            if not use_c:
-                op = dict(dc.lean_op(big, engine="py"), op="subseq", overlap=overlap)
-                if kk is not None:
-                    op["k"] = kk
-                if minlength is not None:
-                    op["minlength"] = minlength
-                if maxlength is not None:
-                    op["maxlength"] = maxlength
-                mo = ctx.driver.run([op])[0]
-                model_y = [tuple(x) for x in mo["yielded"]]
-                if [m[1] for m in d1] != model_y:
-                    res.mismatches.append(dict(info, what="k-best iterator differs from the Lean model", model=model_y))
-                res.hit("iterator_compared_with_model")
-            if d1 != d2:
-                res.violations.append(dict(info, clause="interleaved iteration over the same alignment object gives "
-                                                        "the same matches", second=d2))
-            if kk is not None and len(d1) > kk:
-                res.violations.append(dict(info, clause="at most k matches"))
-            ends = [m[0] for m in d1]
-            if len(set(ends)) != len(ends):
-                res.violations.append(dict(info, clause="distinct end points"))
-            vals = [m[2] for m in d1]
-            if any(vals[i] > vals[i + 1] + 1e-12 for i in range(len(vals) - 1)):
-                res.violations.append(dict(info, clause="non-decreasing value order"))
-            for (idx, (b, e), v) in d1:
-                ln = e - b + 1
-                if (minlength is not None and ln < minlength) or (maxlength is not None and ln > maxlength):
-                    res.violations.append(dict(info, clause="segment respects the length limits"))
-                if e != idx:
-                    res.violations.append(dict(info, clause="segment ends in the match's end position"))
-            if overlap == 0:
-                for i in range(len(d1)):
-                    for j in range(i + 1, len(d1)):
-                        b1, e1 = d1[i][1]; b2, e2 = d1[j][1]
-                        shared = len(set(range(b1, e1 + 1)) & set(range(b2, e2 + 1)))
-                        if shared > 1:
-                            res.violations.append(dict(info, clause="without overlap two matches share at most a single "
-                                                                    "boundary sample", pair=[d1[i], d1[j]]))
-            for m in l1[:2]:
-                check_match(res, eng, q, s, nd, pen, lq, m.idx, m.segment, [(int(a), int(b)) for a, b in m.path],
-                            float(m.value), float(m.distance), best_over_b)
+            # k-best iterator, repeated and interleaved, several configurations per alignment object
+            for _ in range(3):
+                iter_check(ctx, res, sa, use_c, eng, q, s, nd, pen, lq, big, best_over_b,
+                           rng.choice([1, 2, 3, None, None]), rng.choice([0, 0, 1, 2]),
+                           rng.choice([1, 2, 2, 3, lq, lq + 1]), rng.choice([None, None, lq + 1, 2 * lq, max(2, lq - 1)]))
         res.sample({"query": q, "series": s, "penalty": pen, "ndim": nd}, limit=3)
+    # ---- motif stream: longer series with planted (noisy, stretched) copies of the query, many iterator
+    # configurations per alignment object; best_over_b is read from the model matrix (matching theorem)
+    nm = 60 if ctx.thorough else 12
+    for k in range(nm):
+        nd = rng.choice([1, 1, 2])
+        lq = rng.randint(3, 7)
+        q = [rng.randint(-3, 3) for _ in range(lq * nd)]
+        pts = []
+        while len(pts) < rng.randint(20, 45 if ctx.thorough else 32):
+            if rng.random() < 0.6:
+                for i in range(lq):
+                    for _rep in range(rng.choice([1, 1, 1, 2])):
+                        pts.append([q[i * nd + d] + rng.choice([0, 0, 0, 1, -1]) for d in range(nd)])
+            else:
+                for _g in range(rng.randint(1, 4)):
+                    pts.append([rng.randint(-3, 3) for d in range(nd)])
+        s = [v for p in pts for v in p]
+        ls = len(pts)
+        pen = rng.choice([0, 0, 1])
+        res.evaluations += 1
+        res.nontrivial.add(repr((q, s, pen, nd)))
+        big = {"s1": q, "s2": s, "ndim": nd, "inner": "sq", "penalty": pen, "psi": [0, 0, ls, ls]}
+        mat = ctx.driver.run([dc.lean_op(big, engine="py", want_mat=True)])[0]["matU"]
+        best_over_b = {e: mat[lq][e + 1] for e in range(ls) if mat[lq][e + 1] != "inf"}
+        qa = impl.to_container(q, "numpy", nd)
+        sa_ = impl.to_container(s, "numpy", nd)
+        for use_c in (False, True):
+            eng = "C" if use_c else "python"
+            sa = subsequence_alignment(qa, sa_, penalty=float(pen), use_c=use_c)
+            sa.matching_function()
+            for _ in range(8):
+                iter_check(ctx, res, sa, use_c, eng, q, s, nd, pen, lq, big, best_over_b,
+                           rng.choice([None, None, 3, 5, 8]), rng.choice([0, 0, 0, 1, 3]),
+                           rng.choice([1, 2, 3, lq, lq + 1, lq + 2]),
+                           rng.choice([None, lq, lq + 1, lq + 2, 2 * lq, 3 * lq]))
+            res.hit("motif_stream")
     return res
+
+
+def iter_check(ctx, res, sa, use_c, eng, q, s, nd, pen, lq, big, best_over_b, kk, overlap, minlength, maxlength):
+    """one k-best iterator configuration on an alignment object: repeated + interleaved iteration, model comparison
+    (Python engine), invariants"""
+    # k-best iterator, repeated and interleaved
+    try:
+        it1 = sa.kbest_matches(k=kk, overlap=overlap, minlength=minlength, maxlength=maxlength)
+        it2 = sa.kbest_matches(k=kk, overlap=overlap, minlength=minlength, maxlength=maxlength)
+        l1, l2 = [], []
+        alive1 = alive2 = True
+        while alive1 or alive2:     # interleave the two iterators over the same alignment object
+            if alive1:
+                try:
+                    l1.append(next(it1))
+                except StopIteration:
+                    alive1 = False
+            if alive2:
+                try:
+                    l2.append(next(it2))
+                except StopIteration:
+                    alive2 = False
+        d1 = [(m.idx, tuple(m.segment), float(m.value)) for m in l1]
+        d2 = [(m.idx, tuple(m.segment), float(m.value)) for m in l2]
+    except BaseException as ex:
+        if isinstance(ex, (KeyboardInterrupt, SystemExit)):
+            raise
+        res.violations.append({"clause": "kbest_matches raised", "engine": eng, "q": q, "s": s,
+                               "got": impl.exc_name(ex) + ":" + str(ex)[:80]})
+        return
+    info = {"engine": eng, "q": q, "s": s, "penalty": pen, "k": kk, "overlap": overlap,
+            "minlength": minlength, "maxlength": maxlength, "matches": d1}
+    if not use_c:
+        op = dict(dc.lean_op(big, engine="py"), op="subseq", overlap=overlap)
+        if kk is not None:
+            op["k"] = kk
+        if minlength is not None:
+            op["minlength"] = minlength
+        if maxlength is not None:
+            op["maxlength"] = maxlength
+        mo = ctx.driver.run([op])[0]
+        model_y = [tuple(x) for x in mo["yielded"]]
+        if [m[1] for m in d1] != model_y:
+            res.mismatches.append(dict(info, what="k-best iterator differs from the Lean model", model=model_y))
+        res.hit("iterator_compared_with_model")
+    if d1 != d2:
+        res.violations.append(dict(info, clause="interleaved iteration over the same alignment object gives "
+                                                "the same matches", second=d2))
+    if kk is not None and len(d1) > kk:
+        res.violations.append(dict(info, clause="at most k matches"))
+    ends = [m[0] for m in d1]
+    if len(set(ends)) != len(ends):
+        res.violations.append(dict(info, clause="distinct end points"))
+    vals = [m[2] for m in d1]
+    if any(vals[i] > vals[i + 1] + 1e-12 for i in range(len(vals) - 1)):
+        res.violations.append(dict(info, clause="non-decreasing value order"))
+    for (idx, (b, e), v) in d1:
+        ln = e - b + 1
+        if (minlength is not None and ln < minlength) or (maxlength is not None and ln > maxlength):
+            res.violations.append(dict(info, clause="segment respects the length limits"))
+        if e != idx:
+            res.violations.append(dict(info, clause="segment ends in the match's end position"))
+    if overlap == 0:
+        for i in range(len(d1)):
+            for j in range(i + 1, len(d1)):
+                b1, e1 = d1[i][1]; b2, e2 = d1[j][1]
+                shared = len(set(range(b1, e1 + 1)) & set(range(b2, e2 + 1)))
+                if shared > 1:
+                    res.violations.append(dict(info, clause="without overlap two matches share at most a single "
+                                                            "boundary sample", pair=[d1[i], d1[j]]))
+    for m in l1[:2]:
+        check_match(res, eng, q, s, nd, pen, lq, m.idx, m.segment, [(int(a), int(b)) for a, b in m.path],
+                    float(m.value), float(m.distance), best_over_b)
 
 
 def check_match(res, eng, q, s, nd, pen, lq, idx, seg, path, value, distance, best_over_b):
